@@ -269,7 +269,7 @@ prop("C08", level="model_checking",
 prop("C09", level="model_checking",
      technique="per enumerated pattern: captured leaf priority vs the documented rule computed on an independently built HIR, cross-checked by 0/1-BFS shortest match on the reference automaton; token-vs-regex consequence by running the captured graph",
      text="For every pattern of the family the priority logos computed equals the documented rule; literal tokens are never beaten on their own text by a default-priority regex.",
-     note="Same trusted base as C01. Exact-value domain: str patterns and byte patterns whose non-ASCII bytes occur only in classes.", design_ref="5 C09", steps=[step_selfcheck, step_layer1, step_vgraph("c11"), step_vgraph("c10")], assumptions=L1_ASSUME)
+     note="Same trusted base as C01. Exact-value domain: str patterns and byte patterns whose non-ASCII bytes occur only in classes.", design_ref="5 C09", steps=[step_selfcheck, step_layer1, step_vgraph("c11"), step_vgraph("c10"), step_layer2(["u-dev"], ["u-dev", "u-rel"])], assumptions=L1_ASSUME)
 
 prop("C10", level="model_checking", engine="vgraph",
      technique="language equivalence by explicit-state product exploration between the captured graph of each literal definition and a reference built from the literal's bytes / per-character case-fold classes, over all literals up to a length bound",
